@@ -313,6 +313,14 @@ def r15i(ctx, run):
                   "global inside is then used as a compile-time constant with the value of its initialiser" % (kind, "; ".join("%s type-valued=%s" % (c_, t_) for c_, t_ in blind[:3])))
 
 
+def r15j(ctx, run):
+    """what was evaluated for one call of one instantiation stays with it: the table that remembers a call's comptime arguments (and every other table
+    of per-body artefacts) is keyed by a location that carries the comptime arguments - otherwise a second instantiation of the enclosing generic
+    function finds the first one's entry and skips the constness test and the evaluation (shared with C16 R16.a)"""
+    import c16
+    c16.r16a(ctx, run)
+
+
 def r15d(ctx, run):
     """must-pass-through on MIR: in finish_body every path from the entry to the normal return passes the constness test of the global's
     body (get_const), except through the test's own conditions (`global` false, builtin bodies) and the `?` error returns"""
@@ -636,5 +644,6 @@ def rules(ctx):
         Rule("R15.h", "the argument tested for constness is the comptime parameter's own argument: positional selection needs varargs-free prefixes", 1, r15h),
         Rule("R15.f", "a comptime parameter evaluates to the comptime argument at its comptime_idx (lexically resolved index of every comptime_args() lookup)", 2, r15f),
         Rule("R15.i", "an expression kind const_data evaluates through its operand is a kind whose operand get_const examines (classifier vs evaluator)", 3, r15i),
+        Rule("R15.j", "tables of per-call / per-body comptime artefacts are keyed by the instantiation's own location (shared with C16 R16.a)", 8, r15j),
         Rule("R15.c", "classifier and evaluator agree: Const integer-capable kinds have value-producing const_data arms", 8, r15c),
     ]
